@@ -152,7 +152,17 @@ def fallback_index(repo, res, rule="FF"):
     # entry point starts at level 0
     f2 = repo.fn("check::propagate_fallback_levels")
     if f2 is None:
-        res.undecided(rule, f"{rule}:check::propagate_fallback_levels", "function not found")
+        # no wrapper: whoever calls the pass from outside starts it at level 0 (a literal, or a constant whose value is 0)
+        outside = [(g, c) for g in repo.fns_in("check") if g is not fn for c in P.find_calls(g.body, names={fn.name})]
+        okz = bool(outside)
+        for g, c in outside:
+            a = A.resolve(c["args"][2], A.collect_envs(g).get(id(c))) if len(c["args"]) > 2 else ("none",)
+            z = a == ("lit", "0")
+            if a[0] == "path":
+                k = repo.consts.get("check::" + a[1].split("::")[-1])
+                z = k is not None and str(k["expr"].get("v")) == "0"
+            okz = okz and z
+        res.check(okz, rule, f"{rule}:check::propagate_fallback_levels:start-level", f"{len(outside)} outside call(s) of the pass, each starting at || index 0", fn.loc())
         return
     env2 = A.collect_envs(f2)
     cs = list(P.find_calls(f2.body, names={fn.name}))
